@@ -42,6 +42,7 @@ func checkC17(c *Ctx, r *Report) {
 	borrow(c, r, c10R1, "C10.R1.verdict", "C17.R4.verdict", 3, "RRSIG.Verify's verdict comes from the verifier fed the key decoded from the DNSKEY it was given", nil, "signatures are checked against another key than the DNSKEY passed in (a cached key of the same name, algorithm and tag)")
 	r.rule("C17.R5.fresh-hash", 1, "hashFromAlgorithm returns a hash state of its own for every call")
 	freshHash(c, r, "C17.R5.fresh-hash")
+	hashFoldASCII(c, r, "C17.R1.hash-fold")
 }
 
 // c17R6: the RSA public-key decoder accepts every modulus size the generator can produce.
@@ -332,7 +333,7 @@ func c17R1(c *Ctx, r *Report) {
 		// the next hash may be case-normalised first: strings.ToUpper(rr.NextDomain) plays the same role
 		if nextHash != nil {
 			for _, ref := range *nextHash.Referrers() {
-				if call, ok := ref.(*ssa.Call); ok && (calleeNameSSA(&call.Call) == "strings.ToUpper" || calleeNameSSA(&call.Call) == "strings.ToLower") && call.Call.Args[0] == nextHash {
+				if call, ok := ref.(*ssa.Call); ok && isCaseFold(&call.Call) && call.Call.Args[0] == nextHash {
 					role[call] = 2
 					nextHash = call
 				}
@@ -341,7 +342,7 @@ func c17R1(c *Ctx, r *Report) {
 		// likewise the owner hash: a case-normalised copy of the first label
 		if ownerHash != nil {
 			for _, ref := range *ownerHash.Referrers() {
-				if call, ok := ref.(*ssa.Call); ok && (calleeNameSSA(&call.Call) == "strings.ToUpper" || calleeNameSSA(&call.Call) == "strings.ToLower") && call.Call.Args[0] == ownerHash {
+				if call, ok := ref.(*ssa.Call); ok && isCaseFold(&call.Call) && call.Call.Args[0] == ownerHash {
 					ownerHash = call
 				}
 			}
@@ -1045,5 +1046,75 @@ func c17Unhashable(c *Ctx, r *Report, rule string) {
 		}
 		sort.Strings(bad)
 		r.check(len(bad) == 0, rule, name, c.pos(h.Pos()), "behind nameHash != \"\"", "the name hash is compared at %s without having been tested non-empty: for a record with an unknown hash algorithm (which RFC 5155 s.8.1 says must be ignored), a malformed salt or an unpackable name HashName returns \"\", which sorts before every hash, so a wrapping or empty interval 'covers' every name of the zone", strings.Join(bad, ", "))
+	}
+}
+
+// isCaseFold: a call that maps a string to one case (the ordering engine treats the result as the operand; which
+// octets the mapping changes is C17.R1.hash-fold's business).
+func isCaseFold(cc *ssa.CallCommon) bool {
+	switch calleeNameSSA(cc) {
+	case "strings.ToUpper", "strings.ToLower", "asciiUpper", "asciiLower":
+		return len(cc.Args) == 1
+	}
+	return false
+}
+
+// hashFoldASCII: the hash labels NSEC3.Cover and Match compare are brought to one case octet by octet: the hash of
+// the name is base32hex text, and a rune-wise mapping (strings.ToUpper) turns other octets into base32hex letters
+// (U+017F -> S, U+0131 -> I), so an owner label that is not the text of any hash matches.
+func hashFoldASCII(c *Ctx, r *Report, rule string) {
+	r.rule(rule, 3, "NSEC3.Cover and Match fold the owner and next hash labels with an octet-wise ASCII fold, whose range is exactly a-z")
+	n := 0
+	folds := map[string]bool{}
+	for _, name := range []string{"NSEC3.Cover", "NSEC3.Match"} {
+		fn := c.ssaFunc(name)
+		if fn == nil {
+			r.cerr(rule, name, "function not found")
+			continue
+		}
+		r.fn(name)
+		k := 0
+		allInstrs(fn, func(in ssa.Instruction) {
+			call, ok := in.(*ssa.Call)
+			if !ok || len(call.Call.Args) != 1 {
+				return
+			}
+			bt, isB := call.Call.Args[0].Type().Underlying().(*types.Basic)
+			if !isB || bt.Info()&types.IsString == 0 || call.Type() != call.Call.Args[0].Type() {
+				return
+			}
+			fromRecord := anyIn(sliceOf(call.Call.Args[0]), func(v ssa.Value) bool {
+				return readsField("RR_Header", "Name")(v) || readsField("NSEC3", "NextDomain")(v)
+			})
+			if !fromRecord {
+				return
+			}
+			callee := calleeNameSSA(&call.Call)
+			n++
+			k++
+			construct := fmt.Sprintf("%s:fold#%d", name, k)
+			runeWise := strings.HasPrefix(callee, "strings.") || strings.HasPrefix(callee, "unicode.") || strings.HasPrefix(callee, "bytes.")
+			if !runeWise {
+				folds[callee] = true
+			}
+			r.check(!runeWise, rule, construct, c.pos(call.Pos()), callee, "%s maps the hash label with %s, which works on runes: octets that are not ASCII letters become base32hex letters (C5 BF -> S, C4 B1 -> I), and an owner that is not the base32hex text of any hash matches (covers) a name", name, callee)
+		})
+	}
+	var fl []string
+	for f := range folds {
+		fl = append(fl, f)
+	}
+	sort.Strings(fl)
+	for _, f := range fl {
+		n++
+		switch f {
+		case "asciiLower":
+			foldRangeRuleDir(c, r, rule, f, "hash labels that differ only in those octets are told apart, or labels with other octets are identified", false)
+		default:
+			foldRangeRuleDir(c, r, rule, f, "hash labels written in lower case are not matched, or labels with other octets are identified", true)
+		}
+	}
+	if n == 0 {
+		r.undecided(rule, "NSEC3.Cover/Match", "", "no case mapping of a hash label found")
 	}
 }
